@@ -7,14 +7,14 @@
 static char basedir[128];
 static long n_conns, n_msgs_checked, n_resp_checked, n_events_checked, n_refused_sends, n_emsgsize, n_poll_probes, n_server_runs, n_fc_eagain, n_event_eagain;
 
-static void rm_rf(const char *d) { char cmd[300]; snprintf(cmd, sizeof cmd, "rm -rf %s", d); if (system(cmd)) {} }
+static void rm_rf(const char *d) { char cmd[300]; if (getenv("VP_KEEP")) return; snprintf(cmd, sizeof cmd, "rm -rf %s", d); if (system(cmd)) {} }
 
 static pid_t start_server(const struct srv_cfg *cfg, const char *dir)
 {
 	fflush(NULL);
 	pid_t p = fork();
 	if (p == 0) {
-		vp_out = NULL; signal(SIGABRT, SIG_DFL);
+		vp_out = NULL; vp_quiet = 1; signal(SIGABRT, SIG_DFL);
 		char ep[300]; snprintf(ep, sizeof ep, "%s/server.err", dir); int e = open(ep, O_WRONLY | O_CREAT | O_TRUNC, 0600); if (e >= 0) { dup2(e, 2); close(e); }
 		bed_server_main(cfg, dir);
 	}
@@ -53,7 +53,9 @@ static void server_crash_key(const char *dir, int status, char *key, size_t kn, 
 	else snprintf(what, sizeof what, "exit-%d", WEXITSTATUS(status));
 	for (char *q = what; *q; q++) if (*q == ' ' || *q == '\n') *q = '_';
 	snprintf(key, kn, "ipc:server-crashed:%s", what);
-	snprintf(detail, dn, "wait status 0x%x; stderr: %.900s", status, buf);
+	/* keep the frames, drop the addresses */
+	char *w = buf; for (char *q = buf; *q; q++) { if (q[0] == ' ' && q[1] == '0' && q[2] == 'x' && q[3] != ' ') { *w++ = ' '; q += 3; while ((*q >= '0' && *q <= '9') || (*q >= 'a' && *q <= 'f')) q++; if (*q == ' ') q++; } *w++ = *q; if (!*q) break; } *w = 0;
+	snprintf(detail, dn, "wait status 0x%x; stderr: %.1800s", status, buf);
 }
 
 /* =============================== library client (C02) =============================== */
@@ -194,7 +196,7 @@ static void case_c02(long kase)
 		struct cl_cfg cc; memset(&cc, 0, sizeof cc); snprintf(cc.name, sizeof cc.name, "%s", sc.name); cc.idx = i + 1; cc.seed = vp_next(&r); cc.max_msg = maxmsg; cc.nops = 40 + (int)vp_u(&r, 160); cc.slow = (int)vp_u(&r, 2);
 		fflush(NULL);
 		cp[i] = fork();
-		if (cp[i] == 0) { vp_out = NULL; signal(SIGABRT, SIG_DFL); client_c02(&cc, dir); }
+		if (cp[i] == 0) { vp_out = NULL; vp_quiet = 1; signal(SIGABRT, SIG_DFL); client_c02(&cc, dir); }
 	}
 	int cst[4]; for (int i = 0; i < nclients; i++) waitpid(cp[i], &cst[i], 0);
 	int sst = 0; int clean = stop_server(sp, dir, &sst);
@@ -203,7 +205,7 @@ static void case_c02(long kase)
 	char key[160];
 	for (long k = 0; k < ns; k++) if (S[k].kind == L_SRV_VIOLATION) { snprintf(key, sizeof key, "%s", S[k].text); vp_violation(key, "server-side lifecycle monitor (conn %llx) [%s]", (unsigned long long)S[k].conn, vp.cur_desc); }
 	if (!clean || !WIFEXITED(sst) || WEXITSTATUS(sst) != 0) {
-		char det[1200]; if (!clean) { snprintf(key, sizeof key, "ipc:server-does-not-terminate"); snprintf(det, sizeof det, "had to be killed"); } else server_crash_key(dir, sst, key, sizeof key, det, sizeof det);
+		char det[2200]; if (!clean) { snprintf(key, sizeof key, "ipc:server-does-not-terminate"); snprintf(det, sizeof det, "had to be killed"); } else server_crash_key(dir, sst, key, sizeof key, det, sizeof det);
 		vp_violation(key, "%s [%s]", det, vp.cur_desc);
 	}
 	for (int i = 0; i < nclients; i++) if (!WIFEXITED(cst[i]) || WEXITSTATUS(cst[i]) != 0) vp_violation("ipc:client-died", "client %d wait status 0x%x", i + 1, cst[i]);
